@@ -107,6 +107,27 @@ theorem largest_is_max_class (g : Graph) (hwf : g.wfb = true) (hn : 0 < g.n) :
   have hm := largest_is_max g cs _ h hbig
   exact ⟨cs, largestOf cs, h, hbig, hm.2 hex, hm.1, p.classes _ (hm.2 hex)⟩
 
+/-- ties: of several components of maximal size the first one in result order is reported
+(`>` in the selection loop, not `>=`) -/
+theorem largest_ties_first (g : Graph) (pre suf : List (List Nat)) (c : List Nat)
+    (hall : allScc g = .ok (pre ++ c :: suf)) (hc : c ≠ [])
+    (hpre : ∀ a ∈ pre, a.length < c.length) (hsuf : ∀ a ∈ suf, a.length ≤ c.length) :
+    largestScc g = .ok c := by
+  simp [largestScc, hall, largestOf_first pre suf c hc hpre hsuf]
+
+/-! ### every directed graph
+
+`Graph.ofEdges n es` is the value `EdgeLoader` builds from `n` vertices and the edge list `es`; it is well
+formed whenever every end point is a vertex, so the statements above hold for every vertex count and every
+edge list (self loops, repeated pairs, vertices without edges included). -/
+
+theorem scc_correct_every_digraph (n : Nat) (es : List (Nat × Nat)) (h : ∀ p ∈ es, p.1 < n ∧ p.2 < n) :
+    (∀ u v, (Graph.ofEdges n es).Edge u v ↔ (u, v) ∈ es) ∧
+    ∃ cs, allScc (Graph.ofEdges n es) = .ok cs ∧ IsSccPartition (Graph.ofEdges n es) cs := by
+  refine ⟨ofEdges_edge n es, ?_⟩
+  obtain ⟨cs, hcs⟩ := scc_total _ (ofEdges_wfb n es h)
+  exact ⟨cs, hcs, scc_correct _ (ofEdges_wfb n es h) cs hcs⟩
+
 /-! ### the verified checker used by the correspondence run (applying it is testing) -/
 
 /-- `isSccPartition` is sound and complete with respect to the reachability relation -/
@@ -127,6 +148,8 @@ def g4 : Graph :=
     adj := #[[0], [1, 2], [], [3]], rev := #[[3], [0], [2], [1]] }
 
 example : g4.wfb = true := by decide
+example : (Graph.ofEdges 4 [(0, 1), (1, 3), (1, 2), (3, 0)]).adj = g4.adj ∧
+    (Graph.ofEdges 4 [(0, 1), (1, 3), (1, 2), (3, 0)]).rev = g4.rev := by decide
 
 -- the hypotheses of the theorems are met and the conclusion is not trivial: two components, one of three
 -- vertices; 2 and 3 are not in one component although 3 reaches 2
